@@ -67,6 +67,11 @@ pub enum OrderRes<F: Flavour + ?Sized> {
 pub type Attrs = Option<Vec<(String, String)>>;
 /// panic message prefix used when a second terminal call on the same search object answers differently
 pub const REPEATED_CALL_DIFFERS: &str = "REPEATED-CALL-DIFFERS";
+/// the second-call comparison only makes sense while nobody else mutates the graph: C17 switches it off
+pub static REPEAT_CHECK: std::sync::atomic::AtomicBool = std::sync::atomic::AtomicBool::new(true);
+pub fn repeat_check() -> bool {
+    REPEAT_CHECK.load(std::sync::atomic::Ordering::Relaxed)
+}
 
 pub trait Flavour: 'static {
     const NAME: &'static str;
@@ -204,7 +209,7 @@ macro_rules! search_body {
             Term::Search => SearchRes::Node(b.search()),
             Term::Path => {
                 let first = b.search_path();
-                if kind == 0 {
+                if kind == 0 && repeat_check() {
                     // search_path(&mut self) may be called again on the same search object:
                     // without a closure the second answer must be the first one
                     let second = b.search_path();
@@ -261,7 +266,7 @@ macro_rules! order_body {
         match cfg.term {
             OTerm::Nodes => {
                 let first = o.search_nodes();
-                if kind == 0 {
+                if kind == 0 && repeat_check() {
                     let second = o.search_nodes();
                     if first.iter().map(|n| *n.key()).collect::<Vec<Key>>() != second.iter().map(|n| *n.key()).collect::<Vec<Key>>() {
                         panic!("{} search_nodes", REPEATED_CALL_DIFFERS);
@@ -271,7 +276,7 @@ macro_rules! order_body {
             }
             OTerm::Edges => {
                 let first = o.search_edges();
-                if kind == 0 {
+                if kind == 0 && repeat_check() {
                     let second = o.search_edges();
                     if first.iter().map(|e| (*e.0.key(), *e.1.key(), e.2)).collect::<Vec<Tri>>() != second.iter().map(|e| (*e.0.key(), *e.1.key(), e.2)).collect::<Vec<Tri>>() {
                         panic!("{} search_edges", REPEATED_CALL_DIFFERS);
